@@ -195,6 +195,31 @@ def check_leaf_loop(ctx):
             if not ok_h:
                 raise AnalysisError(f"C08.3: the leaf is handed to `{helper.qualname}`, in which the application of the leaf predicate to the leaf was not recognised")
     for n, c in checks:
+        if n.kind == "stmt" and isinstance(n.ast, ast.Assign) and len(n.ast.targets) == 1 and isinstance(n.ast.targets[0], ast.Name) and n.ast.value is c:
+            # `ok = check(leaf)` ... `if not ok: return False`: followed on the CFG for both results
+            from ..absim import eval_bool, simulate
+
+            var = n.ast.targets[0].id
+            nxt = [s_ for k_, s_ in n.succ if k_ == "n"]
+            need(len(nxt) == 1, "C08.3: the statement holding the leaf check has no unique successor")
+
+            def stop(x):
+                return x.kind in ("return", "raise", "exit", "exit_e", "exit_b", "falloff") or x is hdr or (x is not n and x.id in {y.id for y, _ in checks})
+
+            verdicts = {}
+            for val in ("false", "true"):
+                outs = simulate(g, nxt[0], stop, lambda x: eval_bool(x.ast, lambda e: None), None, None, env0={var: val})
+                verdicts[val] = outs
+            rej = [o for o in verdicts["false"] if o.end.kind == "return" and isinstance(o.end.ast.value, ast.Constant) and o.end.ast.value.value is False]
+            if len(rej) != len(verdicts["false"]) or not rej:
+                o = next((o for o in verdicts["false"] if o not in rej), None)
+                ctx.bad("C08.3", f, n.ast, "a leaf that fails the check does not make the tree be rejected: with a false result the walk reaches "
+                        f"`{o.end.text()[:50] if o is not None else '?'}`")
+            elif any(o.end.kind == "return" and isinstance(o.end.ast.value, ast.Constant) and o.end.ast.value.value is False for o in verdicts["true"]):
+                ctx.bad("C08.3", f, n.ast, "a leaf that passes the check makes the tree be rejected")
+            else:
+                ctx.ok("C08.3", f.qualname, "a leaf that fails the check rejects the tree at once (result carried in a local)")
+            continue
         if n.kind != "test":
             ctx.bad("C08.3", f, n.ast, "the result of the leaf check is not tested")
             continue
@@ -206,17 +231,17 @@ def check_leaf_loop(ctx):
             continue
         fail_side = "t" if neg else "f"
         ok = False
+        from ..absim import eval_bool, simulate
+
+        def stop_(x):
+            return x.kind in ("return", "raise", "exit", "exit_e", "exit_b", "falloff") or x is hdr
+
         for k, s in n.succ:
             if k == fail_side:
-                x = s
-                hops = 0
-                while x is not None and hops < 4:
-                    hops += 1
-                    if x.kind == "return":
-                        ok = isinstance(x.ast.value, ast.Constant) and x.ast.value.value is False
-                        break
-                    nx = [y for kk, y in x.succ if kk == "n"]
-                    x = nx[0] if len(nx) == 1 and x.kind in ("finally", "stmt") and not node_calls(x) else (nx[0] if len(nx) == 1 and x.kind == "finally" else None)
+                # every continuation of a failed leaf check ends in `return False` (directly, through the finally
+                # that clears the leaf label, or through a verdict local of an inlined predicate)
+                outs = simulate(g, s, stop_, lambda x: eval_bool(x.ast, lambda e: None), None, None)
+                ok = bool(outs) and all(o.end.kind == "return" and isinstance(o.end.ast.value, ast.Constant) and o.end.ast.value.value is False for o in outs)
         if ok:
             ctx.ok("C08.3", f.qualname, "a leaf that fails the check rejects the tree at once (return False)")
         else:
@@ -368,7 +393,9 @@ def check_flatten_flag(ctx):
                 continue
             for c in m.calls_in(fn_):
                 t = m.resolve_call(fn_, c)
-                if t.kind == "func" and t.target.qualname in setters and fn_.module.short != "_storage":
+                if t.kind == "func" and t.target.qualname in setters:
+                    # (a context-manager helper may live in any module, the storage module included;
+                    # whether it also clears the flag on every exit is the flag typestate's question)
                     if any(isinstance(x, (ast.Yield, ast.YieldFrom)) for x in walk_scope(fn_.node)) or fn_.name == "__enter__":
                         setters.add(fn_.qualname)
 
